@@ -35,6 +35,9 @@ type GeometricDistribution struct {
 /* -------------------------------------------------------------------------- */
 
 func NewGeometricDistribution(p Scalar) (*GeometricDistribution, error) {
+  if math.IsNaN(p.GetFloat64()) {
+    return nil, fmt.Errorf("invalid parameters")
+  }
   if p.GetFloat64() <= 0.0 || p.GetFloat64() > 1.0 {
     return nil, fmt.Errorf("invalid value for parameter p: %f", p.GetFloat64())
   }
